@@ -6,6 +6,8 @@
    pre-scan or the main pass) starts with options [o]; [ofinal] the machine's final state.
    The token list is ARBITRARY in every theorem (all nestings, all inline option strings over any
    bits, comments, conditionals); the only hypotheses are the ones written out. *)
+From Verif Require Model.Spec Model.Writer Proofs.MaskProofs.
+Import Verif.Proofs.MaskProofs Verif.Model.Spec Verif.Model.Writer.
 From Verif Require Import Base.Prelude Model.GroupMap Proofs.OptionsProofs Proofs.GroupMapProofs.
 
 (* "(?O" switches on exactly the bits of O, "(?-O" switches them off *)
@@ -119,3 +121,17 @@ Example C18_witness_unbalanced :
   stamps MainPass 0 [TLit 0; TClose; TOptSet (opt_on [opt_i]); TLit 1] = [0; 0]
   /\ stamps PreScan 0 [TLit 0; TClose; TOptSet (opt_on [opt_i]); TLit 1] = [0; 0; 0; 1].
 Proof. vm_compute. split; reflexivity. Qed.
+
+(* ---- added by the lead: only the RightToLeft and IgnoreCase bits of a node's option word are ever
+   read after parsing — by the reference semantics and by the code generator — so two trees that
+   differ only in the other option bits (Multiline, Singleline, ExplicitCapture, x-mode, …) have the
+   same matches and the same compiled program (Proofs/MaskProofs.v). *)
+Theorem C18_semantics_reads_only_rtl_ci :
+  forall e fuel t s, Spec.sem e fuel (MaskProofs.mask_node t) s = Spec.sem e fuel t s.
+Proof. exact MaskProofs.mask_sem. Qed.
+Print Assumptions C18_semantics_reads_only_rtl_ci.
+
+Theorem C18_writer_reads_only_rtl_ci :
+  forall c t, Writer.compile c (MaskProofs.mask_node t) = Writer.compile c t.
+Proof. exact MaskProofs.mask_compile. Qed.
+Print Assumptions C18_writer_reads_only_rtl_ci.
